@@ -251,18 +251,30 @@ pub fn run(ctx: &mut Ctx) {
     let base = hellos.len();
     let hellos: Vec<(String, Vec<u8>, Option<Vec<u8>>)> = hellos.iter().map(|(c, h, t)| (c.to_string(), h.clone(), t.clone())).chain(truncated).collect();
     let order: Vec<usize> = order.into_iter().chain(base..base + n_trunc).collect();
+    // first flights that do not fit the 16 KiB prebuffer (a long hello with more behind it, delivered with a first segment
+    // that is not a multiple of the read size): whether the random is found there may depend on how the reads fall, but the
+    // replay never does - every byte the client sent must come out of the wrapped stream, in order, once
+    let mut oversized: Vec<(usize, Vec<usize>, usize)> = vec![];
+    if let Some(k) = (0..base).filter(|k| hellos[*k].1.len() > 12 * 1024).max_by_key(|k| hellos[*k].1.len()) {
+        for (cuts, extra) in [(vec![517usize], 6000usize), (vec![1], 4000), (vec![1023, 2047, 9000], 8000), (vec![], 5000), (vec![16383], 3000), (vec![700, 16500], 2500)] {
+            oversized.push((k, cuts, extra));
+        }
+    }
+    let n_regular = order.len();
+    let order: Vec<usize> = order.into_iter().chain(oversized.iter().map(|x| x.0)).collect();
     for (i, hi) in order.into_iter().enumerate() {
+        let over = if i >= n_regular { Some(oversized[i - n_regular].clone()) } else { None };
         let i = if i < big.len() { 5 } else { i - big.len() }; // whole delivery, 17-byte consumer reads for the big ones
         let (class, h, truth) = &hellos[hi];
         let truncated_case = class == "truncated";
         // keep away from the 16 KiB cap where the answer legitimately depends on timing
         let mut stream = h.clone();
-        let extra = if truncated_case || (i == 5 && h.len() > 15 * 1024) { 0 } else { *ctx.rng.pick(&[0usize, 5, 300]) };
+        let extra = if let Some((_, _, e)) = &over { *e } else if truncated_case || (i == 5 && h.len() > 15 * 1024) { 0 } else { *ctx.rng.pick(&[0usize, 5, 300]) };
         stream.extend(ctx.rng.bytes(extra));
         // the loop looks at the buffer before each read and stops when 16 KiB are buffered: a hello ending in
         // the last KiB of a stream that fills the buffer is found or not depending on how the reads fall (the
         // property allows "absent" there); everything else is decided by the bytes alone
-        if class != "fragmented" && h.len() > 15 * 1024 && stream.len() >= 16 * 1024 {
+        if over.is_none() && class != "fragmented" && h.len() > 15 * 1024 && stream.len() >= 16 * 1024 {
             ctx.stat("loop_skipped_timing_dependent");
             continue;
         }
@@ -275,6 +287,9 @@ pub fn run(ctx: &mut Ctx) {
             2 => vec![5.min(n), 9.min(n), 43.min(n), 44.min(n)],
             _ => (0..ctx.rng.range(2, 6)).map(|_| ctx.rng.below(n as u64 + 1) as usize).collect(),
         };
+        if let Some((_, c, _)) = &over {
+            cuts = c.iter().map(|x| (*x).min(n)).collect();
+        }
         cuts.sort();
         let read_sizes: Vec<usize> = match i % 3 {
             0 => vec![],
@@ -322,6 +337,11 @@ pub fn run(ctx: &mut Ctx) {
                 }
                 if let (Some(r), None) = (&random, truth) {
                     ctx.oracle_failure("wrong_random", &format!("read loop returned {} for a fragmented hello (must be absent)", hex(r)));
+                }
+                if over.is_some() {
+                    // (found or absent is the reads' business here; the replay was checked above)
+                    ctx.stat("loop_oversized_first_flight");
+                    continue;
                 }
                 let ans = match &random {
                     Some(r) => format!("some {}", hex(r)),
